@@ -4,3 +4,4 @@ import TinodeVerif.Props.C20
 import TinodeVerif.Props.C17
 import TinodeVerif.Props.C19
 import TinodeVerif.Props.C12
+import TinodeVerif.Props.C18
